@@ -36,6 +36,14 @@ WHICH.update({
     "reg_bridge_init": ("verify_reg_bridge_init", "amaranth_soc.csr.reg.Bridge.__init__",
                         ["csr.reg.Bridge.__init__::one-multiplexer-over-that-very-map",
                          "csr.reg.Bridge.__init__::bus-carries-the-very-map-given"]),
+    "monitor_init": ("verify_monitor_init", "amaranth_soc.event.Monitor.__init__",
+                     ["event.Monitor.__init__::mask-enable-is-as-wide-as-the-event-map", "event.Monitor.__init__::mask-pending-is-as-wide-as-the-event-map",
+                      "event.Monitor.__init__::mask-clear-is-as-wide-as-the-event-map", "event.Monitor.__init__::src-signature-built-with-the-trigger-as-given",
+                      "event.Monitor.__init__::src-carries-the-very-event-map-given"]),
+    "csr_decoder_align_to": ("verify_csr_decoder_align_to", "amaranth_soc.csr.bus.Decoder.align_to",
+                             ["csr.bus.Decoder.align_to::argument-forwarded-unchanged-exactly-once"]),
+    "wb_decoder_align_to": ("verify_wb_decoder_align_to", "amaranth_soc.wishbone.bus.Decoder.align_to",
+                            ["wishbone.bus.Decoder.align_to::argument-forwarded-unchanged-exactly-once"]),
     "reg_bridge_init_freezes": ("verify_reg_bridge_init_freezes", "amaranth_soc.csr.reg.Bridge.__init__",
                                 ["csr.reg.Bridge.__init__::an-accepted-map-has-been-frozen"])})
 
